@@ -187,6 +187,33 @@ def check3(ctx, cid, P, st, deep=True):
             v = safe(ctx, cid, 'UnitQuaternion.R', P, lambda: qm.R)
             if v is not None:
                 cmp(ctx, cid, 'UnitQuaternion.R', dict(P, sign='-q'), v, R, 1, '-q -> matrix')
+            # -q up to one rounding error in one component (what Rx(pi) and Rx(-pi), or two routes to the same half turn, give):
+            # still the same rotation, still far inside the comparison tolerance, must still compare equal
+            for k, dl in itertools.product(range(4), (1.5e-16, -1.5e-16)):
+                pv = -np.asarray(q.vec, dtype=float)
+                pv[k] += dl
+                qp = safe(ctx, cid, 'UnitQuaternion', P, lambda: S.UnitQuaternion(pv, norm=False, check=False))
+                if qp is None:
+                    continue
+                e = safe(ctx, cid, 'UnitQuaternion.eq', P, lambda: q == qp)
+                if e is not None and not (isinstance(e, (bool, np.bool_)) and bool(e)):
+                    ctx.fail(cid, 'UnitQuaternion.eq', 'mismatch', dict(P, perturbed=k), 'q == (-q + %.1e in component %d) gives %r' % (dl, k, e))
+                n = safe(ctx, cid, 'UnitQuaternion.ne', P, lambda: q != qp)
+                if n is not None and bool(n) is not False:
+                    ctx.fail(cid, 'UnitQuaternion.ne', 'mismatch', dict(P, perturbed=k), 'q != (-q + %.1e in component %d) gives %r' % (dl, k, n))
+            # exponential coordinates of either sign of the quaternion: log -> exp and log -> rotation vector give the same rotation
+            for sgn, qq in (('q', q), ('-q', qm)):
+                L = safe(ctx, cid, 'UnitQuaternion.log', P, lambda: qq.log())
+                if L is None:
+                    continue
+                lv = np.asarray(L.vec, dtype=float)
+                if lv.shape != (4,) or not np.all(np.isfinite(lv)):
+                    ctx.fail(cid, 'UnitQuaternion.log', 'nan', dict(P, sign=sgn), 'log is %r' % (lv,))
+                    continue
+                cmp(ctx, cid, 'UnitQuaternion.log', dict(P, sign=sgn), ref.mp_to_np(ref.mp_exp_so3(2 * lv[1:])[0]), R, 1, 'rotation vector 2*log(%s).v -> matrix' % sgn)
+                E = safe(ctx, cid, 'Quaternion.exp', P, lambda: L.exp())
+                if E is not None:
+                    cmp(ctx, cid, 'Quaternion.exp', dict(P, sign=sgn), ref.q2r(np.asarray(E.vec, dtype=float)), R, 1, 'exp(log(%s)) -> matrix' % sgn)
     if X is not None:
         t2 = safe(ctx, cid, 'Twist3(SE3)', P, S.Twist3, X)
         if t2 is not None and np.all(np.isfinite(t2.S)):
